@@ -301,21 +301,8 @@ def r4(R4, cfg, F):
     if not rl:
         R4.missing(cfg, 'HotReloader::reload')
         return
-    tok = [c for c in rl.calls() if c.callee and c.callee.name == 'get_unique_token']
-    snd = [c for c in rl.calls() if c.callee and c.callee.best == 'crossbeam_channel::Sender::<T>::send']
-    wt = [c for c in rl.calls() if c.callee and c.callee.name == 'wait_for_answer']
-    isok = [c for c in rl.calls() if c.callee and c.callee.best == 'std::result::Result::<T, E>::is_ok']
-    ok = len(tok) == 1 and len(snd) == 1 and len(wt) == 1 and len(isok) == 1
-    if ok:
-        ok = rl.access_path(wt[0].args[1]) == ['call@bb%d' % tok[0].bb] and rl.access_path(isok[0].args[0]) == ['call@bb%d' % snd[0].bb, '&']
-        sw = [bb for bb, t in rl.terms() if t['k'] == 'switch' and rl.access_path(t['discr']) == ['call@bb%d' % isok[0].bb]]
-        ok = ok and len(sw) == 1
-        if ok:
-            true = [d for d, lab in rl.edges(sw[0]) if lab != 'sw:0']
-            ok = len(true) == 1 and wt[0].bb not in rl.reachable([0], removed_edges=[(sw[0], true[0])])
-            msg = [s for s in agg_stmts(rl, snd[0].args[1]) if s['rv'].get('variant_name') == 'Ptr']
-            ok = ok and len(msg) == 1 and rl.access_path(msg[0]['rv']['ops'][2]) == ['call@bb%d' % tok[0].bb]
-    R4.check(ok, cfg, rl.path, 'wait-only-after-send-ok-on-own-token', 'reload must block only when its message was sent, waiting for the very token it put in the message', rl.loc())
+    ok, why_rl = common.reload_waits_for_own_token(rl)
+    R4.check(ok, cfg, rl.path, 'wait-only-after-send-ok-on-own-token', 'reload must block only when its message was sent, waiting for the very token it put in the message: ' + why_rl, rl.loc())
     # the waiter waits for its own token; the notifier waits for an empty slot
     for fn, want in (('wait_for_answer', 'ne'), ('notify', 'is_some')):
         cb = F.body('hot_reloading::Answers::%s::{closure#0}' % fn)
@@ -323,6 +310,9 @@ def r4(R4, cfg, F):
             R4.missing(cfg, 'Answers::%s predicate' % fn)
             continue
         cs = [c.callee.name for c in cb.calls() if c.callee]
+        if want == 'is_some':
+            # (normal form) the predicate is true exactly when the slot (its argument) is Some
+            cs = ['is_some'] if common.returns_is_variant(cb, 1) == ['arg2'] and not cs else cs + ['?']
         R4.check(cs == [want], cfg, cb.path, 'predicate=' + want, 'wait predicate of %s must be `%s`' % (fn, {'ne': '*t != Some(token)', 'is_some': 't.is_some()'}[want]), cb.loc())
 
 
